@@ -364,3 +364,63 @@ def c11_4(run):
     if not any(s[1] for s in seen) or not any(s[2] for s in seen):
         raise Inconclusive(f'vacuity: {seen}')
     run.require_reached(*run.cur.reach)
+
+
+# ----------------------------------------------------------------------------------------------------------------- C11-5
+@obligation('C11', 'C11-5 State::write replaces the state file atomically: the encoded state is written to the temp path, and the live state file is touched only as the destination of a rename of that temp file (never opened, truncated or copied over)')
+def c11_5(run):
+    def fs(op):
+        def h(ctx):
+            st = ctx.st
+            args = [ctx.ex.deref_val(st, a) for a in ctx.args]
+            tags = [a.attrs.get('tag') if isinstance(a, Obj) else None for a in args]
+            n = sum(1 for e in st.log if e[0] == 'fs')
+            okv = z3.Bool(f'fs_{op}_ok_{n}')
+            st.log.append(('fs', op, tags, okv))
+            rty = ctx.ret_ty
+            return [(None, M.thunk_future(lambda ex, s2, fut: [(okv, (lambda s3: ok(z3.BitVec('bytes_copied', 64) if op == 'copy' else ()))), (z3.Not(okv), (lambda s3: err(Obj('std::io::Error', kind='error'))))]))]
+        return h
+
+    def h_unknown_fs(ctx):
+        raise Inconclusive(f'file-system call that is not modelled: {ctx.callee[:120]}')
+
+    def h_encode(ctx):
+        okv = z3.Bool('json_encode_ok')
+        o = Obj('String', kind='opaque'); o.attrs['tag'] = 'encoded-state'
+        return [(okv, (lambda s2: ok(o))), (z3.Not(okv), (lambda s2: err(Obj('serde_json::Error', kind='error'))))]
+    same = lambda ctx: [(None, ctx.ex.deref_val(ctx.st, ctx.args[0]))]
+    hooks = [(re.compile(r'^tokio::fs::write::<'), fs('write')), (re.compile(r'^tokio::fs::rename::<'), fs('rename')), (re.compile(r'^tokio::fs::copy::<'), fs('copy')),
+             (re.compile(r'^tokio::fs::remove_file::<'), fs('remove_file')), (re.compile(r'^(tokio|std)::fs::'), h_unknown_fs), (re.compile(r'(tokio::fs::|std::fs::)?(File|OpenOptions)::'), h_unknown_fs),
+             (re.compile(r'^(serde_json::)?to_string_pretty::<'), h_encode), (re.compile(r'as AsRef<(std::path::)?Path>>::as_ref$|as Deref>::deref$|as AsRef<\[u8\]>>::as_ref$'), same)]
+    ex = loader.load(['astria-sequencer-relayer'], hooks=hooks, scalar_types={'tendermint::block::Height': 64, 'SequencerHeight': 64})
+    f = _impl_fn(ex, 'write', 'State')
+    run.bound(state='any State value (its JSON encoding is an oracle)', fs='tokio::fs::{write, rename, copy, remove_file} are oracles that may fail; any other file-system call makes the obligation inconclusive')
+    dest = B.struct(ex, 'StateFilePath', **{'0': _path('state-file')}); tmp = B.struct(ex, 'TempFilePath', **{'0': _path('temp-file')})
+    st = ex.start(f, [B.cell(Obj('relayer::submission::State')), B.cell(dest), B.cell(tmp)])
+    n_ok = 0
+    for i, p in enumerate(run.explore(ex, st, poll=True, allow_havoc=(r'^Arguments::|fmt::', r'Path::display', r'format'))):
+        if p.kind != 'return':
+            run.prove(f'no panic [path {i}]', p.pc, z3.BoolVal(False), detail=p.info); continue
+        kind, r = A.poll_result(p)
+        ops = [e for e in p.log if e[0] == 'fs']
+        run.sample({'path': i, 'result': kind, 'fs': [(e[1], e[2]) for e in ops]})
+        touching = [e for e in ops if 'state-file' in e[2]]
+        claim = [z3.BoolVal(all(e[1] == 'rename' and e[2][:2] == ['temp-file', 'state-file'] for e in touching))]
+        for e in touching:
+            j = ops.index(e)
+            prior = [x for x in ops[:j] if x[1] == 'write' and x[2][0] == 'temp-file' and 'encoded-state' in x[2]]
+            claim.append(z3.BoolVal(len(prior) == 1))
+            if prior:
+                claim.append(prior[0][3])
+        if kind == 'Ok':
+            n_ok += 1
+            claim += [z3.BoolVal(len(touching) == 1), touching[0][3] if touching else z3.BoolVal(False)]
+        run.prove(f'the live state file is only ever the destination of a rename of the fully written temp file; Ok only after that rename succeeded [path {i}]', p.pc, z3.And(*claim))
+    if not n_ok:
+        raise Inconclusive('vacuity')
+    run.require_reached(*run.cur.reach)
+
+
+def _path(tag):
+    o = Obj('std::path::PathBuf', kind='opaque'); o.attrs['tag'] = tag
+    return o
